@@ -87,8 +87,10 @@ type TableCfg struct {
 	IntDomain func(v ssa.Value) []int64
 	// Sink: a non-return instruction that ends a path; returns its outputs.
 	Sink func(ins ssa.Instruction) []ssa.Value
-	// Inline: callee may be expanded symbolically.
-	MaxPaths int
+	// SinkContinue: a sink emits a row but the path goes on (later sinks on
+	// the same path are reported too).
+	SinkContinue bool
+	MaxPaths     int
 }
 
 type tableEx struct {
@@ -158,7 +160,9 @@ func (tx *tableEx) walk(b, from *ssa.BasicBlock, row *PathRow, on map[*ssa.Basic
 						r.Out = append(r.Out, tx.term(o, r, 0))
 					}
 					tx.rows = append(tx.rows, r)
-					return
+					if !tx.cfg.SinkContinue {
+						return
+					}
 				}
 			}
 		case *ssa.Return:
@@ -631,4 +635,70 @@ func wellFormed(t *Term) bool {
 		}
 	}
 	return true
+}
+
+// models enumerates the assignments of the named atoms under which every guard
+// of the row holds, pruning as soon as a guard's atoms are all assigned (the
+// same set `assignments`+`satisfied` gives, without building the product).
+func (tx *tableEx) models(r *PathRow, names []string) []Assign {
+	var ns []string
+	idx := map[string]int{}
+	for _, n := range names {
+		if tx.atoms[n] != nil {
+			idx[n] = len(ns)
+			ns = append(ns, n)
+		}
+	}
+	// guard → position after which it can be decided
+	at := make([][]Guard, len(ns)+1)
+	for _, g := range r.Guards {
+		last := 0
+		decidable := true
+		for _, a := range tx.atomsOf(g.T) {
+			i, ok := idx[a]
+			if !ok {
+				decidable = false
+				break
+			}
+			if i+1 > last {
+				last = i + 1
+			}
+		}
+		if !decidable {
+			last = len(ns)
+		}
+		at[last] = append(at[last], g)
+	}
+	var out []Assign
+	cur := Assign{}
+	holds := func(gs []Guard) bool {
+		for _, g := range gs {
+			v := tx.eval(g.T, cur, 0)
+			if v.Kind != "int" || (v.K != 0) != g.Truth {
+				return false
+			}
+		}
+		return true
+	}
+	var rec func(i int)
+	rec = func(i int) {
+		if !holds(at[i]) {
+			return
+		}
+		if i == len(ns) {
+			b := Assign{}
+			for k, v := range cur {
+				b[k] = v
+			}
+			out = append(out, b)
+			return
+		}
+		for _, d := range tx.atoms[ns[i]].Dom {
+			cur[ns[i]] = d
+			rec(i + 1)
+		}
+		delete(cur, ns[i])
+	}
+	rec(0)
+	return out
 }
